@@ -472,7 +472,7 @@ def build_configs(tier, seed):
         opts = dict(timeout=kw.pop('timeout', 300 if quick else 1800))
         cfgs.append(dict(name=name, fn=fn, kw=kw, opts=opts))
     # ---- cell maps -------------------------------------------------------------------------------------------------------------
-    subsets3 = [None, [1], [2, 0], [2, 0, 1]] if not quick else [None, [2, 0]]
+    subsets3 = [None, [1], [2, 0], [2, 0, 1], [0, 0, 2], [1, 2, 2]] if not quick else [None, [2, 0], [0, 0, 2]]   # incl. repeated cells (facet bases)
     for mesh in ['tri3fan', 'line3perm'] + ([] if quick else ['tet2']):
         for mk in ('affine', 'iso'):
             for layout in ('shared', 'percell'):
@@ -550,7 +550,7 @@ META = dict(
     symbolic='vertex coordinates, reference points, facet parameters',
     bounds=dict(meshes='1-3 cell meshes per class; hexahedra one (thorough two) free vertices; prism numeric',
                 newton='symbolic only on affine geometry (tri, thorough tet/line); general quads/hexes/mixed batches numeric with 1e-9 tolerance (concrete)',
-                layouts='(dim,npts) and (dim,ncells,npts); tind in {None, subset, permutation}; MappingAffine(mesh, tind=...)'),
+                layouts='(dim,npts) and (dim,ncells,npts); tind in {None, subset, permutation, list with repeated cells}; MappingAffine(mesh, tind=...)'),
     outside=['Newton inverse and normals on curved cells', 'curved tetrahedra/hexahedra', 'Newton convergence on general cells for all geometries',
              'Jacobian cache behaviour on point arrays beyond 1200 (thorough 5000) entries', 'float rounding'],
     stubs=[],
